@@ -845,6 +845,27 @@ impl<'a, W: Write> YamlSerializer<'a, W> {
         self.in_flow -= 1;
         r
     }
+
+    /// Inside a flow collection a block-style `Variant:` label cannot be written (line breaks and
+    /// indentation mean nothing there): open the single-entry flow mapping `{Variant: ` instead,
+    /// followed by `open` (the payload's own opening bracket, if any).
+    fn open_flow_variant(&mut self, variant: &str, open: &str) -> Result<()> {
+        self.write_scalar_prefix_if_anchor()?;
+        self.write_space_if_pending()?;
+        if self.at_line_start {
+            self.write_indent(self.depth)?;
+        }
+        let text = scalar_key_to_string(variant, self.yaml_12)?;
+        self.out.write_str("{")?;
+        if text.chars().count() > MAX_IMPLICIT_KEY_CHARS {
+            self.out.write_str("? ")?;
+        }
+        self.out.write_str(&text)?;
+        self.out.write_str(": ")?;
+        self.out.write_str(open)?;
+        self.at_line_start = false;
+        Ok(())
+    }
 }
 
 // ------------------------------------------------------------
@@ -1330,6 +1351,13 @@ impl<'a, 'b, W: Write> Serializer for &'a mut YamlSerializer<'b, W> {
         variant: &'static str,
         value: &T,
     ) -> Result<()> {
+        if self.in_flow > 0 {
+            // `{Variant: payload}`
+            self.open_flow_variant(variant, "")?;
+            self.with_in_flow(|s| value.serialize(s))?;
+            self.out.write_str("}")?;
+            return Ok(());
+        }
         // If we are the value of a mapping key, YAML forbids "key: Variant: value" inline.
         // Emit the variant mapping on the next line indented one level. Also, do not insert
         // a space after the colon when the value may itself be a mapping; instead, defer
@@ -1515,6 +1543,16 @@ impl<'a, 'b, W: Write> Serializer for &'a mut YamlSerializer<'b, W> {
         variant: &'static str,
         _len: usize,
     ) -> Result<Self::SerializeTupleVariant> {
+        if self.in_flow > 0 {
+            // `{Variant: [a, b]}`
+            self.open_flow_variant(variant, "[")?;
+            return Ok(TupleVariantSer {
+                depth: self.depth,
+                ser: self,
+                flow: true,
+                first: true,
+            });
+        }
         // Positioned like a struct variant (see `serialize_struct_variant`).
         if self.pending_space_after_colon {
             // Value position after a map key: start the variant mapping on the next line.
@@ -1529,6 +1567,8 @@ impl<'a, 'b, W: Write> Serializer for &'a mut YamlSerializer<'b, W> {
             return Ok(TupleVariantSer {
                 ser: self,
                 depth: base + 1,
+                flow: false,
+                first: true,
             });
         }
         if self.at_line_start {
@@ -1546,6 +1586,8 @@ impl<'a, 'b, W: Write> Serializer for &'a mut YamlSerializer<'b, W> {
         Ok(TupleVariantSer {
             ser: self,
             depth: depth_next,
+            flow: false,
+            first: true,
         })
     }
 
@@ -1664,6 +1706,16 @@ impl<'a, 'b, W: Write> Serializer for &'a mut YamlSerializer<'b, W> {
         variant: &'static str,
         _len: usize,
     ) -> Result<Self::SerializeStructVariant> {
+        if self.in_flow > 0 {
+            // `{Variant: {a: 1, b: 2}}`
+            self.open_flow_variant(variant, "{")?;
+            return Ok(StructVariantSer {
+                depth: self.depth,
+                ser: self,
+                flow: true,
+                first: true,
+            });
+        }
         // If we are the value of a mapping key, YAML forbids keeping a nested mapping
         // on the same line (e.g., "key: Variant:"). Move the variant mapping to the next line
         // indented under the parent mapping's base depth.
@@ -1684,6 +1736,8 @@ impl<'a, 'b, W: Write> Serializer for &'a mut YamlSerializer<'b, W> {
             return Ok(StructVariantSer {
                 ser: self,
                 depth: depth_next,
+                flow: false,
+                first: true,
             });
         }
         // Otherwise (top-level or sequence context), emit the variant name at current depth.
@@ -1703,6 +1757,8 @@ impl<'a, 'b, W: Write> Serializer for &'a mut YamlSerializer<'b, W> {
         Ok(StructVariantSer {
             ser: self,
             depth: depth_next,
+            flow: false,
+            first: true,
         })
     }
 }
@@ -2072,12 +2128,23 @@ pub struct TupleVariantSer<'a, 'b, W: Write> {
     ser: &'a mut YamlSerializer<'b, W>,
     /// Target indentation depth for the fields.
     depth: usize,
+    /// Whether the variant is written inside a flow collection, as `{Variant: [a, b]}`.
+    flow: bool,
+    /// Whether the next field is the first (comma handling in flow style).
+    first: bool,
 }
 impl<'a, 'b, W: Write> SerializeTupleVariant for TupleVariantSer<'a, 'b, W> {
     type Ok = ();
     type Error = Error;
 
     fn serialize_field<T: ?Sized + Serialize>(&mut self, value: &T) -> Result<()> {
+        if self.flow {
+            if !self.first {
+                self.ser.out.write_str(", ")?;
+            }
+            self.first = false;
+            return self.ser.with_in_flow(|s| value.serialize(s));
+        }
         self.ser.write_indent(self.depth)?;
         self.ser.out.write_str("- ")?;
         self.ser.at_line_start = false;
@@ -2088,6 +2155,10 @@ impl<'a, 'b, W: Write> SerializeTupleVariant for TupleVariantSer<'a, 'b, W> {
         value.serialize(&mut *self.ser)
     }
     fn end(self) -> Result<()> {
+        if self.flow {
+            self.ser.out.write_str("]}")?;
+            return Ok(());
+        }
         // Like a finished block sequence: the hints staged after the last dash must not
         // reach the next sibling value.
         self.ser.last_value_was_block = true;
@@ -2344,6 +2415,10 @@ pub struct StructVariantSer<'a, 'b, W: Write> {
     ser: &'a mut YamlSerializer<'b, W>,
     /// Target indentation depth for the fields.
     depth: usize,
+    /// Whether the variant is written inside a flow collection, as `{Variant: {a: 1}}`.
+    flow: bool,
+    /// Whether the next field is the first (comma handling in flow style).
+    first: bool,
 }
 impl<'a, 'b, W: Write> SerializeStructVariant for StructVariantSer<'a, 'b, W> {
     type Ok = ();
@@ -2355,6 +2430,15 @@ impl<'a, 'b, W: Write> SerializeStructVariant for StructVariantSer<'a, 'b, W> {
         value: &T,
     ) -> Result<()> {
         let text = scalar_key_to_string(&key, self.ser.yaml_12)?;
+        if self.flow {
+            if !self.first {
+                self.ser.out.write_str(", ")?;
+            }
+            self.first = false;
+            self.ser.out.write_str(&text)?;
+            self.ser.out.write_str(": ")?;
+            return self.ser.with_in_flow(|s| value.serialize(s));
+        }
         self.ser.write_indent(self.depth)?;
         self.ser.out.write_str(&text)?;
         // Defer spacing/newline decision to the value serializer similarly to map entries.
@@ -2368,6 +2452,9 @@ impl<'a, 'b, W: Write> SerializeStructVariant for StructVariantSer<'a, 'b, W> {
         result
     }
     fn end(self) -> Result<()> {
+        if self.flow {
+            self.ser.out.write_str("}}")?;
+        }
         Ok(())
     }
 }
